@@ -184,6 +184,20 @@ theorem c14_lockout {U : Type} [DecidableEq U] (ops : List (U × Attempt))
     monAll (fun _ => Mon.init) (traceM step (fun _ => Totp.init) ops) = true :=
   monAll_of_rel ops _ _ (fun _ => rel_init) (fun _ => by simp [Mon.init]; omega)
 
+/-- **The monitor is the property's** : `monStep`, whose parameters are read from the source, is the
+monitor with the statement's own parameters (2 s, every 5th failure, k hours, 24 h) — the one the
+driver's `judge` runs over what the implementation did. -/
+theorem c14_monitor_spec (m : Mon) (now : Int) (out : Outcome) :
+    monStep m now out = Spec.monStep m now out := by
+  have h1 : spacingNs = Spec.spacingNs := by decide
+  have h2 : resetNs = Spec.resetNs := by decide
+  have h3 : every = Spec.every := by decide
+  have h4 : lockStepNs = Spec.lockStepNs := by decide
+  rcases m with ⟨le, n, lf, lu⟩
+  cases out <;> cases le <;>
+    simp only [monStep, Spec.monStep, monN, Spec.monN, monCheck, Spec.monCheck, tooSoon, Spec.tooSoon,
+      h1, h2, h3, h4] <;> rfl
+
 /-- **k-th lock-out**: the failure that brings `failCount` to `every`·k (k ≥ 1) sets the expiry to
 now + k·(lock step): strictly in the future, and one step further for every further block. -/
 theorem c14_lockout_kth (s : Totp) (a : Attempt) (k : Nat) (hev : 0 < every)
